@@ -1,8 +1,11 @@
 import Tibc.Props.C10
 import Tibc.Expect.Packet
+import Tibc.Expect.Keys
 #print axioms Tibc.C10.clean_accept_iff_source
 #print axioms Tibc.C10.recvclean_accepted_only_with_proof
 #print axioms Tibc.C10.recvclean_accepted_with_proof
 #print axioms Tibc.C10.clean_effect
 #print axioms Tibc.C10.cleanpoint_monotone
 #print axioms Tibc.C10.refused_for_good
+#print axioms Tibc.C10.clean_key_injective
+#print axioms Tibc.C10.clean_key_family_disjoint
